@@ -11,11 +11,15 @@ def hProcRanks (j : Json) : R Json := do
   let status ← natList j "status"
   let size ← nat j "size"
   let batch ← nat j "batch"
+  -- optional per-rank batch limits (ranks on sockets with different memory): default = the common limit
+  let batches ← match j.getObjVal? "batches" with
+    | .ok _ => natList j "batches"
+    | .error _ => pure (List.replicate size batch)
   let pend := pending status
   let ranks := (List.range size).map fun r =>
     let s := rankStart pend.length size r
     let e := rankEnd pend.length size r
-    let bs := (windowsTotal batch s e).map (fun w => pySlice pend w.1 w.2)
+    let bs := (windowsTotal (batches.getD r batch) s e).map (fun w => pySlice pend w.1 w.2)
     Json.mkObj [("start", s), ("end", e), ("batches", ofNatListList bs)]
   return Json.mkObj [("pending", ofNatList pend), ("ranks", ofList ranks)]
 
